@@ -1218,7 +1218,7 @@ fn pipeline_mode(a: &Args) {
     }
 }
 
-/// F21 regression (fixed in /repo d15cfb0): an edge with J = 0 next to an idle variable. Before the
+/// F21 regression (fixed in /repo 523d878): an edge with J = 0 next to an idle variable. Before the
 /// fix `build_cluster` pushed the neighbour with weight `bond_mag = 0`; the next `pop_index` computed
 /// 0/0 = NaN and `gen_bool(NaN)` panicked. Scripted: start at the idle variable 0, cluster size 2.
 fn j0_regression() {
